@@ -64,7 +64,7 @@ Init == \E i \in 1..Len(Programs) : InitSem(i, <<>>, FALSE)
 Next == SemNext
 EmitInv == (EmitOn /\ Final) =>
    Emit([fam |-> "control", cls |-> Cases[pid].c, key |-> "control#" \o IntStr(pid) \o ":" \o Cases[pid].c, pid |-> pid,
-         toks |-> Compact(Yield(MinParen(P))), stdin |-> stdin, repl |-> repl,
+         toks |-> Compact(Yield(MinParen(P))), tree |-> P, stdin |-> stdin, repl |-> repl,
          status |-> status, why |-> why, out |-> out, diags |-> diags, natlog |-> natlog, steps |-> steps])
 (* family-specific invariants *)
 LoopsTerminate == status # "fuel"
